@@ -356,18 +356,22 @@ class MethodEval:
             if isinstance(s, ast.Assign) and len(s.targets) == 1:
                 t = s.targets[0]
                 if isinstance(t, ast.Name):
+                    why = ""
                     try:
                         v = self.b(s.value, env)
-                    except Undecided:
+                    except Undecided as ex:
                         # x * np.nan etc: a fresh masked array
-                        v = None
+                        v, why = None, str(ex)
                     if v is not None and self._is_nan_array(v):
                         masked[t.id] = []
                         env[t.id] = ('masked', t.id)
                     elif v is not None:
                         env[t.id] = v
-                    else:
+                    elif why.startswith("free name"):
                         env.pop(t.id, None)
+                        raise Undecided(why)             # the right-hand side reads a name that is bound nowhere
+                    else:
+                        env[t.id] = ('unknown', why[:60])   # bound, to something this reader does not model: a later read is undecided, not "free"
                     continue
                 if isinstance(t, (ast.Tuple, ast.List)):
                     v = self.b(s.value, env)
@@ -440,13 +444,20 @@ class MethodEval:
                             self.out.append(c)
                         continue
                     raise Undecided("data-dependent branch")
-                p_t, p_f = norm_pred(test, True), norm_pred(test, False)
                 rest = stmts[i + 1:]
-                e1, m1 = dict(env), {k: list(v) for k, v in masked.items()}
-                e2, m2 = dict(env), {k: list(v) for k, v in masked.items()}
                 # raising guards on parameters (get_xmax) are not branches of the formula
                 if all(isinstance(x, ast.Raise) for x in s.body) and not s.orelse:
                     continue
+                # the same guard written the other way round: `if ok: return v` followed by an unconditional raise
+                if _only_raises(list(s.orelse) + rest) and not _only_raises(list(s.body) + rest):
+                    self.walk(list(s.body) + rest, env, conds, masked)
+                    return
+                if _only_raises(list(s.body) + rest) and not _only_raises(list(s.orelse) + rest):
+                    self.walk(list(s.orelse) + rest, env, conds, masked)
+                    return
+                p_t, p_f = norm_pred(test, True), norm_pred(test, False)
+                e1, m1 = dict(env), {k: list(v) for k, v in masked.items()}
+                e2, m2 = dict(env), {k: list(v) for k, v in masked.items()}
                 self.walk(list(s.body) + rest, e1, conds + [p_t], m1)
                 self.walk(list(s.orelse) + rest, e2, conds + [p_f], m2)
                 return
@@ -522,6 +533,17 @@ class MethodEval:
             if not consistent(allc):
                 continue
             self.out.append(Case(allc, e, masks2, doms2))
+
+
+def _only_raises(stmts):
+    """the statement list ends in a raise on its only path (assignments of the message before it allowed, no return / branch)"""
+    for st in stmts:
+        if isinstance(st, ast.Raise):
+            return True
+        if isinstance(st, ast.Assign) or (isinstance(st, ast.Expr) and isinstance(st.value, ast.Constant)):
+            continue
+        return False
+    return False
 
 
 def mask_norm(e):
